@@ -43,7 +43,7 @@ package netconf
 
 // ---- C08: message ids and the reply store --------------------------------------------------------------
 
-//@ func (*Driver).buildPayload [C08 C03]
+//@ func (*Driver).buildPayload [C08 C03 C05]
 //@   modifies d.messageID, alloc()
 //@   ensures #id-is-current fresh(result) && result.MessageID == old(d.messageID)
 //@   ensures #id-advances d.messageID == old(d.messageID) + 1
@@ -141,10 +141,11 @@ package netconf
 //@   ensures #reader-started-only-on-success-with-a-settled-version result == nil ==> (d.SelectedVersion == "1.0" || d.SelectedVersion == "1.1")
 
 // ---- C03: sendRPC hands serialize the driver's settings, each in its own place, and writes exactly the framed bytes -------
-//@ func (*Driver).sendRPC [C03 C05]
+//@ func (*Driver).sendRPC [C03 C05 C08]
 //@   at call! WriteAndReturn#1 assert [C03] #exactly-the-framed-request-is-written-unredacted arg0 == serialized.framedXML && !arg1
 //@   at call WriteReturn#1 assert [C03] #an-extra-return-only-under-1.1-framing d.SelectedVersion == "1.1"
 //@   at call! NewNetconfResponse#1 assert [C03] #the-response-reports-the-bytes-that-were-framed arg0 == serialized.rawXML && arg1 == serialized.framedXML && arg4 == d.SelectedVersion
+//@   at call! WithCancel#1 assert [C08] #the-polling-goroutine-stops-only-when-the-call-is-over-not-on-a-deadline-of-its-own true
 //@   at call! NewTimer#1 assert [C05] #the-wait-for-the-reply-is-bounded-by-the-selected-timeout arg0 == (op.Timeout == -1 ? d.Channel.TimeoutOps : (op.Timeout == 0 ? 86400 * 1000000000 : op.Timeout))
 //@   flows [C03] #self-closing-setting-goes-to-its-parameter d.ForceSelfClosingTags only to serialize#1.forceSelfClosingTags
 //@   flows [C03] #header-setting-goes-to-its-parameter d.ExcludeHeader only to serialize#1.excludeHeader
